@@ -137,7 +137,7 @@ class CoqCases:
                 fh.write("Definition all_cases : list bool := "
                          + "".join(f"(cons case_{j} " for j in range(len(chunk))) + "nil" + ")" * len(chunk) + ".\n")
                 fh.write("Fixpoint mism_ (i : nat) (l : list bool) : list nat := match l with nil => nil "
-                         "| cons b l' => if b then mism_ (S i) l' else cons i (mism_ (S i) l') end.\n")
+                         "| cons b l' => if b then mism_ (Datatypes.S i) l' else cons i (mism_ (Datatypes.S i) l') end.\n")
                 fh.write("Eval vm_compute in mism_ O all_cases.\n")
             files.append((k, path))
         failed, errors = [], []
